@@ -110,6 +110,7 @@ def make_cases_for(tier, seed):
                 yield from G.chain_programs(seed, big=tier != "quick")
                 yield from G.length_programs(seed, compatible_cases=False, max_len=6)
                 yield from G.switch_programs(seed, compatible_cases=False, big=tier != "quick")
+                yield from G.cross_programs(seed, compatible_cases=False)
             else:
                 alpha, lo, hi, depth, seconds = item
                 yield from G.programs(alpha, hi, depth, seed, seconds, min_n=lo)
@@ -121,13 +122,13 @@ def run(tier, seed):
     impl.warm()
     make_cases, pl = make_cases_for(tier, seed)
     total = runner.explore(make_cases, run_case, timeout=30.0)
-    bounds = {"plan": [("G-forms + G-chains + G-lengths + G-switch",) if p[0] == "forms" else
+    bounds = {"plan": [("G-forms + G-chains + G-lengths + G-switch + G-cross",) if p[0] == "forms" else
                        {"alphabet": p[0].name, "nodes": [p[1], p[2]], "depth": p[3], "second_routines": list(p[4])}
                        for p in pl]}
     return runner.finish(
         ID, LEVEL, tier, seed, total, t0,
         rule="every program of G-prog (all statement-list skeletons with the stated node counts / nesting depth over the "
-             "stated alphabet, x second-routine variants; forms rotated by seed) plus G-forms, G-chains (all if / elseif / else chains of 2-3 branches x block kinds x not) and G-lengths (switch / if with branch bodies of 0..2 against 0..6 ops in or next to a loop) and G-switch (all switches of 3-4 cases x 7 body kinds x default placement); each is compiled by the real "
+             "stated alphabet, x second-routine variants; forms rotated by seed) plus G-forms, G-chains (all if / elseif / else chains of 2-3 branches x block kinds x not) and G-lengths (switch / if with branch bodies of 0..2 against 0..6 ops in or next to a loop) and G-switch (all switches of 3-4 cases x 7 body kinds x default placement) and G-cross (labels reached only from another routine x 4 jump kinds x 5 prefixes x 9 continuations); each is compiled by the real "
              "compiler and the complete product Ref(ast) x Machine(compiled ops) is explored per routine; "
              "states/transitions are summed over those products; non-trivial = program with at least one reachable test "
              "(so at least two distinct traces), distinct by canonical skeleton",
